@@ -542,6 +542,12 @@ def install(E):
         raise Unsupported('expected sequence, got %r' % (r,))
 
     def seq_len(s):
+        if isinstance(s, Seq) and s.n is None:
+            # not a prefix sequence (after retain / a collected filter): the length is the number of present slots
+            ps = [simp(p) for p in s.pres]
+            if all(isinstance(p, bool) for p in ps):
+                return sum(1 for p in ps if p)
+            return sum([If(zbool(p), 1, 0) for p in ps])
         return s.n if isinstance(s, Seq) else len(s.fs)
 
     def seq_elems(s):
